@@ -75,6 +75,7 @@ inductive Err where
   | noCRLF          -- ValueError('MIME requires CRLF terminators')
   | noColon         -- ValueError (unpacking `line.split(b':', 1)`)
   | badContinuation -- ValueError('Illegal continuation line')
+  | reader413       -- HTTPError(413) out of SizedReader (only in the concrete version, MultipartR)
   | fuel            -- model artefact
   deriving Repr, DecidableEq, Inhabited
 
